@@ -21,15 +21,18 @@ for P in C01 C04 C05 C06 C07 C09 C18 C19 C20; do
   $BIN check $P $TIER >$SCR/out.txt 2>&1; RC=$?
   [ $RC -eq 0 ] && echo "clean   $P" || { echo "ALARM   $P rc=$RC"; grep -E "VIOLATION|HARNESS|kind=" $SCR/out.txt | head -4; }
 done
-CAUGHT=0; TOTAL=0
+CAUGHT=0; TOTAL=0; EXPECTED=0
 for D in /verif/seeded/$GLOB; do
   ID=$(basename $D); P=${ID%%-*}; TOTAL=$((TOTAL+1))
   git -C $SCR/repo apply $D/patch.diff || { echo "NOAPPLY $ID"; continue; }
   if build && { [ "$P" != "C20" ] || build_cli; }; then
     $BIN check $P $TIER >$SCR/out.txt 2>&1; RC=$?
-    if [ $RC -eq 1 ]; then CAUGHT=$((CAUGHT+1)); echo "CAUGHT  $ID  $(grep -m1 '^  kind=' $SCR/out.txt | cut -c1-140)"; else echo "MISSED  $ID rc=$RC $(grep '^done' $SCR/out.txt | tr '\n' ' ')"; fi
+    if grep -q '"check_result": "NOT CAUGHT' $D/meta.json; then
+      # recorded as not caught by this property's check (DESIGN.md section 12): exit 0 is what is expected
+      [ $RC -eq 0 ] && { EXPECTED=$((EXPECTED+1)); echo "NOT-CAUGHT-AS-RECORDED  $ID"; } || echo "CHANGED  $ID rc=$RC (recorded as not caught)"
+    elif [ $RC -eq 1 ]; then CAUGHT=$((CAUGHT+1)); echo "CAUGHT  $ID  $(grep -m1 '^  kind=' $SCR/out.txt | cut -c1-140)"; else echo "MISSED  $ID rc=$RC $(grep '^done' $SCR/out.txt | tr '\n' ' ')"; fi
   fi
   git -C $SCR/repo checkout -q -- .
 done
-echo "SELFTEST-RESULT caught=$CAUGHT of $TOTAL tier=$TIER"
+echo "SELFTEST-RESULT caught=$CAUGHT of $TOTAL (recorded as not caught: $EXPECTED) tier=$TIER"
 rm -rf $SCR
